@@ -165,3 +165,22 @@ class Layer(pg.Object):
 @pg.members([('layers', pg.typing.List(pg.typing.Object(Layer)))])
 class Net(pg.Object):
   """C13: value evolved by pg.evolve."""
+
+
+# ---------------------------------------------------------------------------
+# C20: classes whose documentation / field descriptions are hostile (and a benign twin)
+# ---------------------------------------------------------------------------
+@pg.members([
+    ('x', pg.typing.Any(default=None), 'field </span><b>ZQX1</b> "quoted" & <script>ZQX2</script>'),
+    ('y', pg.typing.Any(default=None), "it's --> ]]> </style> ZQX3"),
+])
+class HObjA(pg.Object):
+  """Doc </div></details><script>ZQX4</script> <i>tail</i> & "q" 'a'."""
+
+
+@pg.members([
+    ('x', pg.typing.Any(default=None), 'field XspanXXbXZQX1XXbX XquotedX X XscriptXZQX2XXscriptX'),
+    ('y', pg.typing.Any(default=None), 'itXs --X ]]X XXstyleX ZQX3'),
+])
+class HObjB(pg.Object):
+  """Doc XXdivXXXdetailsXXscriptXZQX4XXscriptX XiXtailXXiX X XqX XaX."""
